@@ -255,6 +255,13 @@ def run(tier, rng, C):
     v += bad
     stats["large_document_pairs"] = nbig
     stats["evaluations"] = stats.get("evaluations", 0) + nbig
+    # the same library calls through the crate's own HTTP clients (reqwest, reqwest blocking, curl, ureq) against a scripted
+    # loopback server: the outcome must be the one an in-memory client given the same reply produces (gen/same.py)
+    from gen import same as SAME
+    bad_same, n_same = SAME.run("C05", SAME.cases(["code", "refresh", "introspect", "devauth"], rng, statuses=(200, 201, 400, 401, 403, 500, 503)) + SAME.poll_cases(rng), C)
+    v += bad_same
+    stats["through_bundled_adapters"] = n_same
+    stats["evaluations"] = stats.get("evaluations", 0) + n_same
     stats["rule"] = ("all statuses 100..=599 x rotating (7 request kinds, standard/extension response type, 15 Content-Type classes incl. absent, case variants, parameters, look-alikes, opaque bytes, "
                      "15 body classes (incl. huge/fractional/negative values of the known numeric members): empty, success doc, error doc, both shapes, wrong shape, truncated, text, invalid UTF-8, 200-deep nesting, 400-digit number, 1e999, document followed by junk, "
                      "error document followed by token document, whitespace padded) + the full product for statuses 200/400 (and a third of it for 201/204/302/401/500) + transport errors, "
